@@ -145,8 +145,10 @@ fn make_case(rng: &mut Rng, mode: Mode) -> Case {
     // twin is the same text, packs several instructions on a line (the text of a line is echoed in print headers)
     let lay = Layout { trailing_newline: rng.chance(1, 2), filler_pct: 15, pack_pct: if mode == Mode::Flag && rng.chance(1, 2) { 25 } else { 0 }, comments: false };
     let spell_seed = rng.fork(77);
-    let stepped_r = stepped.render(&mut Spell { rng: Some(spell_seed.clone()), upper_prob: 0, radix_mix: false, ws_mix: false, syn_mix: false }, &lay);
-    let plain_r = plain.render(&mut Spell { rng: Some(spell_seed), upper_prob: 0, radix_mix: false, ws_mix: false, syn_mix: false }, &lay);
+    // now and then at another scale: line numbers beyond 255 / 65535, columns beyond 255 (both twins alike)
+    let (pad, indent) = rand_scale(rng);
+    let stepped_r = stepped.render(&mut Spell { rng: Some(spell_seed.clone()), upper_prob: 0, radix_mix: false, ws_mix: false, syn_mix: false }, &lay).scaled(pad, indent);
+    let plain_r = plain.render(&mut Spell { rng: Some(spell_seed), upper_prob: 0, radix_mix: false, ws_mix: false, syn_mix: false }, &lay).scaled(pad, indent);
     Case { stepped: stepped_r, plain: plain_r, mode, reads }
 }
 
@@ -174,6 +176,16 @@ impl Cmd {
 }
 
 fn rand_cmd(rng: &mut Rng, allow_quit: bool) -> Cmd {
+    // now and then a line far longer than any command (beyond 4 KiB, 8 KiB, 64 KiB): one line stays one command
+    if rng.chance(1, 14) {
+        let n = *rng.pick(&[4090usize, 4096, 4100, 8191, 8192, 8200, 20000, 70000]);
+        return match rng.below(4) {
+            0 => Cmd::Next(format!("{}next", " ".repeat(n))),
+            1 => Cmd::Next(format!("n{}", " ".repeat(n))),
+            2 => Cmd::Garbage(format!("{}{}", "x".repeat(n), rng.pick(&["q", "n", "next", "quit", ""]))),
+            _ => Cmd::Print(format!("print mem 0 -> {}20", "0".repeat(n))),
+        };
+    }
     match rng.below(if allow_quit { 14 } else { 13 }) {
         0..=6 => Cmd::Next(rng.pick(&["n", "next", "N", "NEXT", "  n  ", "Next", "\tnext"]).to_string()),
         7 | 8 | 9 => Cmd::Print(
@@ -255,6 +267,10 @@ pub fn run_case(rep: &Report, c: &Case, rng: &mut Rng, core: Option<usize>) {
             }
         }
         for _ in 0..(if c.reads { 50 } else { bp.recs.len() * 2 + 50 }) {
+            if rng.chance(1, 40) {
+                // an answer padded far beyond any buffer size is still one answer
+                v.extend_from_slice(" ".repeat(*rng.pick(&[4096usize, 8192, 9000])).as_bytes());
+            }
             v.extend_from_slice(rng.pick(&["n\n", "next\n", "N\n", "  next  \n"]).as_bytes());
         }
         v
